@@ -145,6 +145,10 @@ def generate(rng):
             if k == "fit" and ops and ops[-1]["op"] in ("set_params", "mutate_data", "crash_fit", "malformed_fit") and last_ds is not None:
                 op["data"] = last_ds
             last_ds = op["data"] if k in ("fit", "fit_predict", "path") else last_ds
+        if k in ("fit", "fit_predict", "path") and not is_kauri and rng.random() < 0.08:
+            # two tasks: ANOTHER estimator (built from the same parameter objects) is fitted by a second task; the scheduler
+            # runs its whole fit just before the at-th optimiser step of this call
+            op["nested_other"] = {"at": rng.randint(1, 4), "data": rng.randrange(3)}
         if k in ("fit", "fit_predict", "score") and uses_precomputed_any(cfg) and rng.random() < 0.3:
             op["no_affinity"] = True      # the precomputed matrix is not passed (Kauri: documented linear fallback; others: rejected)
         if k in ("predict", "predict_proba", "score"):
@@ -484,13 +488,44 @@ def execute(record):
                                 if not set_kernel_fault(model, c["at"]):
                                     world.opt_raise_at = c["at"]
                         args = op.get("args", {})
-                        with crash_context(op, log, res):
+                        nested = op.get("nested_other") if kind in ("fit", "fit_predict", "path") else None
+                        if nested:
+                            def nested_hook(w, opt, params, grads, _st={"busy": False, "done": False}, _model=model, _nested=nested):
+                                if _st["busy"] or _st["done"] or w.n_steps != _nested["at"]:
+                                    return
+                                _st["busy"] = True
+                                saved_steps = w.n_steps
+                                try:
+                                    other = type(_model)(**_model.get_params(deep=False))
+                                    harness_for(other)
+                                    Xo, Ao = pool[_nested["data"]]
+                                    log.emit("TASK", task="second_estimator", phase="begin")
+                                    try:
+                                        other.fit(Xo, Ao)
+                                        res.fault("interleaved_second_estimator_fit")
+                                    except (SimFault, SimBudget):
+                                        raise
+                                    except Exception as e:
+                                        if is_harness_frame(e):
+                                            raise
+                                        res.probe("second_estimator_raised:" + type(e).__name__)
+                                    log.emit("TASK", task="second_estimator", phase="end")
+                                finally:
+                                    w.n_steps = saved_steps
+                                    _st["busy"] = False
+                                    _st["done"] = True
+                            world.step_hooks.append(nested_hook)
+                        try:
+                          with crash_context(op, log, res):
                             if base_kind == "path":
                                 ret = model.path(X, A, **args)
                             elif base_kind == "fit_predict":
                                 ret = model.fit_predict(X, A)
                             else:
                                 model.fit(X, A)
+                        finally:
+                            if nested:
+                                world.step_hooks.remove(nested_hook)
                     elif kind in ("predict", "predict_proba", "score"):
                         # read-only calls: the same call twice gives the same answer and leaves the fitted state untouched
                         before = fitted_state(model)
